@@ -12,9 +12,32 @@ Tie (H), per case (one loss object, one prediction array):
     (norm.logpdf, poisson.logpmf, gamma.logpdf(a=shape, scale=mu/shape), nbinom.logpmf(k, k/(k+mu))) for the loss,
     50-digit mpmath derivatives of the closed-form reference log-density for diff_loss / diff2Loss, and the result
     shape `(n,)` for vector, single-column `(n,1)` and single-row inputs, scalar / per-observation spread.
+
+Sessions (`kind: "session"` cases) - the Lean side treats every kernel as a PURE function of (y, yhat, spread, weight)
+(`Gen.X_loss y yhat s w` ...; `C14.session_is_pure`, `C14.earlier_results_kept`, `C14.objects_do_not_interact` state what that
+means for a sequence of calls).  The real objects are Python objects with attributes, so the purity is probed directly,
+again with an oracle that is independent of Lean, of the translated formulas and of the code under test:
+  * call histories on ONE object: a method evaluated at yhat_A, then at yhat_B through the SAME ndarray object refilled in
+    place (or through a new view of the same persistent memory, e.g. `sol[:, 1]`), then at yhat_A again; loss / diff_loss /
+    diff2Loss interleaved in random orders, both `apply_weighting` values; a sibling object of the same class with other
+    data evaluated in between through the same buffers (class-/module-level state); `copy.deepcopy` of the object; a new
+    object built on the caller's y array after that array was refilled in place;
+  * every value against the closed-form reference at the content the array had AT CALL TIME; a repeat of an earlier
+    evaluation through the same buffer must reproduce the first result bit for bit;
+  * every result is KEPT (not copied) and compared again at the end of the session (returned-array aliasing);
+  * every container the caller handed in (y, spread, weights, predictions) is compared with its original content: a write into
+    one of them is a side effect and is TAGGED (`input-modified:<what>`), never a violation by itself - the property is about
+    values.  Its consequences are judged: a buffer whose intended content did not change is passed again WITHOUT being refilled,
+    and nothing the object may have damaged is repaired, so a later wrong value is the violation;
+  * forms: y as float / int ndarray, list / tuple of floats or ints, (n,p) matrix or nested list; predictions as (n,), (n,1),
+    (1,n), (n,p), contiguous or strided, float or (integer-valued) int dtype; spread as Python float / int, numpy float64,
+    (n,), (n,1), (n,p), int-dtype array (and, tagged but only judged when accepted: numpy int64 / float32 scalars, 0-d arrays,
+    lists); weights as (n,), (n,1), (n,p) arrays, lists, tuples, int and bool arrays.
 """
+import copy
 import json
 import os
+import pickle
 import random
 
 import mpmath
@@ -30,15 +53,24 @@ LEAN = {"module": "Pygom.Props.C14",
         + ["Pygom.C14.%s_diff_loss_is_derivative" % c for c in ("square", "normal", "poisson", "gamma", "negbinom")]
         + ["Pygom.C14.%s_diff2_is_second_derivative" % c for c in ("square", "normal", "poisson", "gamma", "negbinom")]
         + ["Pygom.C14.%s_diff_loss_weighted" % c for c in ("square", "normal", "poisson", "gamma", "negbinom")]
-        + ["Pygom.C14.normal_loss_weighted", "Pygom.C14.raw_eq_unit_weight"]}
-BUDGET = {"quick": {"cases": 2500, "search": 5000}, "thorough": {"cases": 150000, "search": 40000}}
+        + ["Pygom.C14.normal_loss_weighted", "Pygom.C14.raw_eq_unit_weight"]
+        + ["Pygom.C14.session_is_pure", "Pygom.C14.earlier_results_kept", "Pygom.C14.repeat_reproduces", "Pygom.C14.objects_do_not_interact"]}
+BUDGET = {"quick": {"cases": 2500, "session": 2000, "search": 5000, "search_session": 1500},
+          "thorough": {"cases": 150000, "session": 40000, "search": 40000, "search_session": 10000}}
 RULE = ("random loss objects: class in {Square, Normal, Poisson, Gamma, NegBinom}; n in 1..7 observations (integers, zero included, "
         "for the count losses; > 0 for Gamma); predictions > 0 given as vector (n,), single column (n,1) or single row (1,n); spread "
         "default / scalar / per-observation (n,) / (n,1); weights none / per-observation; apply_weighting True / False.  A case is "
-        "non-trivial when all three methods returned and the residual is non-zero in some observation")
+        "non-trivial when all three methods returned and the residual is non-zero in some observation.  Session cases (kind=session): "
+        "one object (+ optionally a sibling of the same class with other data), 8-16 operations drawn from {loss, diff_loss, diff2Loss} x "
+        "apply_weighting x 2-3 prediction vectors x {fresh array, one buffer object refilled in place, new view of one persistent solution "
+        "matrix}, always containing m(A), m(A), m(B), m(A) through the same buffer (refilled only when the content changes) for some method m, optionally deepcopy of the object and a new "
+        "object on the caller's refilled y array; y / prediction / spread / weight containers and dtypes varied (see module docstring).  A "
+        "session is non-trivial when every operation returned and some buffer was re-used with changed content")
 ASSUMPTIONS = ["scipy.stats log-densities are the reference densities (executable reference, also compared per case with the mpmath closed forms)",
                "float arithmetic of the real code versus real arithmetic: relative tolerance 1e-8 (references are accurate to ~1e-13)",
-               "the translated term denotes what the Python expression computes elementwise (translator, validated per case numerically)"]
+               "the translated term denotes what the Python expression computes elementwise (translator, validated per case numerically)",
+               "a kernel object is its data: the Lean model has no per-object, per-class or per-module state (session_is_pure ...); the session cases test "
+               "that on the real objects with buffers refilled in place, sibling objects, kept results and re-read containers, they do not prove it"]
 TRUSTED = ["harness/translate_kernels.py (symbolic executor + Lean/numpy printers)", "scipy.stats reference densities", "mpmath (50 digits)"]
 
 CLASSES = ["Square", "Normal", "Poisson", "Gamma", "NegBinom"]
@@ -102,11 +134,15 @@ def make_cases(rng, tier, budget):
     for i in range(budget["cases"]):
         r = random.Random(rng.getrandbits(64))
         out.append(_gen_case(r, force=CLASSES[i % 5] if i < 50 else None))
+    for i in range(budget.get("session", 0)):
+        r = random.Random(rng.getrandbits(64))
+        out.append(_gen_session(r, force=CLASSES[i % 5] if i < 100 else None))
     return out
 
 
 def search_cases(rng, tier, budget):
-    return [_gen_case(random.Random(rng.getrandbits(64))) for _ in range(budget["search"])]
+    return ([_gen_case(random.Random(rng.getrandbits(64))) for _ in range(budget["search"])]
+            + [_gen_session(random.Random(rng.getrandbits(64))) for _ in range(budget.get("search_session", 0))])
 
 
 # ------------------------------------------------------------------------------------------ references
@@ -154,6 +190,8 @@ def _layout_tag(case):
 
 # ------------------------------------------------------------------------------------------ run
 def run_case(case):
+    if case.get("kind") == "session":
+        return _run_session(case)
     from pygom.loss import loss_type
     mpmath.mp.dps = 50
     cls = case["cls"]
@@ -184,6 +222,8 @@ def run_case(case):
         w_vec = np.array(case["weights"]["value"], float)
         kw["weights"] = w_vec.reshape(-1, 1) if case["weights"]["column"] else w_vec
     where = "%s:%s:spread-%s" % (cls, _layout_tag(case), case["spread"]["kind"] if case["spread"] else "none")
+    given = {"y": (y, y.copy())}
+    given.update({k: (v, v.copy()) for k, v in kw.items() if isinstance(v, np.ndarray)})
     try:
         obj = getattr(loss_type, cls)(y, **kw)
     except Exception as exc:
@@ -270,5 +310,430 @@ def run_case(case):
                              "signature": "%s.diff2Loss:value" % cls, "detail": json.dumps(case)})
         if viol:
             break
+    # the arrays handed in are the caller's.  Writing into them is a side effect, not a wrong value: it is TAGGED here; what it
+    # does to later values is judged above (second apply_weighting pass on the same object) and in the session cases
+    for name, (arr, snap) in given.items():
+        if not (arr.shape == snap.shape and np.array_equal(arr, snap)):
+            tags.append("input-modified:%s" % ("y" if name == "y" else "weights" if name == "weights" else "spread"))
     return {"nontrivial": bool(got_all and resid_nonzero), "mismatches": mism, "violations": viol, "tags": tags,
             "sample": {"cls": cls, "y": case["y"], "yhat": case["yhat"], "layout": case["layout"], "spread": case["spread"], "weights": case["weights"]}}
+
+
+# ========================================================================================== sessions
+# The Lean model of a kernel is a pure function of (y, yhat, spread, weight): nothing a caller did earlier, nothing another
+# object did, and nothing about the identity / layout / dtype of the containers can change a value (Props/C14.lean,
+# section "sessions").  The probes below check exactly that on the real objects; every expected value comes from the
+# closed-form references above, evaluated at the content the containers had at the time of the call.
+METHODS = ("loss", "diff_loss", "diff2Loss")
+Y_FORMS = ["float_array", "float_array", "int_array", "list_float", "list_int", "tuple_float", "tuple_int"]
+SPREAD_CORE = ["default", "pyfloat", "pyfloat", "pyint", "npfloat64", "array", "array", "int_array", "column"]
+SPREAD_EXOTIC = ["npint64", "npfloat32", "zerod", "list"]           # rejected by the unchanged tree: tagged, judged only if accepted
+W_FORMS = ["array", "array", "column", "list", "tuple", "int_array", "bool_array"]
+VIAS = ["buffer", "buffer", "view", "view", "fresh"]
+
+
+def _gen_obj(r, cls, N, matrix):
+    count = cls in ("Poisson", "NegBinom")
+    y_form = r.choice(Y_FORMS)
+    integer = count or y_form.endswith("int") or y_form == "int_array"
+    if integer:
+        lo = 1 if cls == "Gamma" else 0
+        y = [float(r.choice([lo, 1, 2, 3, 5, 8, 13, 40, r.randint(lo, 200)])) for _ in range(N)]
+        if cls in ("Square", "Normal") and r.random() < 0.5:
+            y = [-v if r.random() < 0.3 else v for v in y]
+    else:
+        lo = 0.05 if cls == "Gamma" else -20.0
+        y = [round(r.uniform(lo, 30.0), 6) for _ in range(N)]
+    spread = None
+    if cls in SPREAD:
+        kind = r.choice(SPREAD_CORE) if r.random() < 0.93 else r.choice(SPREAD_EXOTIC)
+        if matrix and kind == "column":
+            kind = "array"
+        if kind in ("array", "int_array", "column") and not y_form.endswith("array") and r.random() < 0.9:
+            # the unchanged constructors read `y.shape` next to an array spread: a list / tuple y is refused there (kept, rarely, as a tagged form)
+            y_form = "int_array" if y_form.endswith("int") else "float_array"
+        lo_, hi_ = {"sigma": (0.1, 5.0), "shape": (0.2, 8.0), "k": (0.1, 20.0)}[SPREAD[cls]]
+        if kind == "default":
+            spread = {"kind": kind}
+        elif kind in ("pyint", "npint64"):
+            spread = {"kind": kind, "value": r.choice([2, 3, 4, 5, 7])}
+        elif kind in ("pyfloat", "npfloat64", "npfloat32", "zerod"):
+            v = round(r.uniform(lo_, hi_), 6) if kind != "npfloat32" else r.choice([0.5, 1.5, 2.25, 3.0])
+            spread = {"kind": kind, "value": v}
+        elif kind == "int_array":
+            spread = {"kind": kind, "value": [r.randint(1, 6) for _ in range(N)]}
+        else:
+            spread = {"kind": kind, "value": [round(r.uniform(lo_, hi_), 6) for _ in range(N)]}
+    weights = None
+    if r.random() < 0.45:
+        form = r.choice(W_FORMS)
+        if matrix and form == "column":
+            form = "array"
+        if form == "int_array":
+            w = [r.choice([0, 1, 1, 2, 3]) for _ in range(N)]
+            w[r.randrange(N)] = 2
+        elif form == "bool_array":
+            w = [r.choice([0, 1, 1]) for _ in range(N)]
+            w[r.randrange(N)] = 1
+        else:
+            w = [round(r.uniform(0.1, 3.0), 6) for _ in range(N)]
+        weights = {"value": w, "form": form}
+    return {"y": y, "y_form": y_form, "spread": spread, "weights": weights}
+
+
+def _gen_session(r, force=None):
+    cls = r.choice(CLASSES) if force is None else force
+    layout = r.choice(["vector", "vector", "column", "row", "matrix"])
+    matrix = layout == "matrix"
+    n = r.choice([2, 3, 4, 5]) if matrix else r.choice([1, 2, 3, 3, 4, 5, 7])
+    N = 2 * n if matrix else n
+    objs = [_gen_obj(r, cls, N, matrix)]
+    if r.random() < 0.55:
+        objs.append(_gen_obj(r, cls, N, matrix))
+    yhat_int = r.random() < 0.08
+    nyh = r.choice([2, 3])
+    if yhat_int:
+        yhats = [[float(r.randint(1, 40)) for _ in range(N)] for _ in range(nyh)]
+    else:
+        yhats = [[round(r.uniform(0.05, 40.0), 6) if r.random() < 0.7 else round(r.uniform(0.05, 1.5), 6) for _ in range(N)] for _ in range(nyh)]
+    has_w = any(o["weights"] for o in objs)
+
+    def rand_op():
+        return {"obj": r.randrange(len(objs)) if r.random() < 0.35 else 0, "meth": r.choice(METHODS),
+                "aw": (r.random() < 0.6) if has_w else (r.random() < 0.85), "yhat": r.randrange(nyh), "via": r.choice(VIAS)}
+
+    ops = [rand_op() for _ in range(r.randint(4, 8))]
+    # the core history: m(A), m(B), m(A) through the same buffer object / the same persistent memory
+    m, via, aw = r.choice(METHODS), r.choice(["buffer", "view"]), ((r.random() < 0.6) if has_w else True)
+    a, b = r.sample(range(nyh), 2)
+    core = [{"obj": 0, "meth": m, "aw": aw, "yhat": i, "via": via} for i in (a, a, b, a)]        # a twice: passed again as it is, not refilled
+    if r.random() < 0.35:      # cost, gradient, curvature, cost while the solver's buffer moves on
+        core += [{"obj": 0, "meth": mm, "aw": aw, "yhat": i, "via": via} for mm, i in zip(("loss", "diff_loss", "diff2Loss", "loss"), (a, b, a, b))]
+    if has_w and r.random() < 0.6:     # same buffer, same content, the other weighting
+        core += [{"obj": 0, "meth": m, "aw": not aw, "yhat": a, "via": via}, {"obj": 0, "meth": m, "aw": aw, "yhat": a, "via": via}]
+    if len(objs) > 1 and r.random() < 0.7:      # same buffer, same content, the other object and back
+        core += [{"obj": 1, "meth": m, "aw": aw, "yhat": a, "via": via}, {"obj": 0, "meth": m, "aw": aw, "yhat": a, "via": via}]
+    pos = sorted(r.randrange(len(ops) + 1) for _ in core)
+    for off, (p_, op) in enumerate(zip(pos, core)):
+        ops.insert(p_ + off, op)
+    if r.random() < 0.3:
+        ops.insert(r.randrange(1, len(ops)), {"op": "deepcopy", "obj": r.randrange(len(objs)), "how": r.choice(["deepcopy", "pickle"])})
+    if r.random() < 0.3:
+        fresh_y = _gen_obj(r, cls, N, matrix)["y"] if objs[0]["y_form"].startswith(("float", "list_float", "tuple_float")) else None
+        if fresh_y is None:
+            lo = 1 if cls == "Gamma" else 0
+            fresh_y = [float(r.choice([lo, 1, 2, 4, 6, 9, 21, r.randint(lo, 150)])) for _ in range(N)]
+        elif cls == "Gamma":
+            fresh_y = [abs(v) + 0.05 for v in fresh_y]
+        elif cls in ("Poisson", "NegBinom"):
+            fresh_y = [float(int(abs(v))) for v in fresh_y]
+        k = r.randrange(2, len(ops))
+        ops.insert(k, {"op": "rebuild", "obj": 0, "y": fresh_y})
+        # the rebuilt object is used right away and again through the core buffer
+        ops.insert(k + 1, {"obj": 0, "meth": r.choice(METHODS), "aw": aw, "yhat": a, "via": via})
+        ops.insert(k + 2, {"obj": 0, "meth": "loss", "aw": aw, "yhat": b, "via": r.choice(VIAS)})
+    return {"kind": "session", "cls": cls, "layout": layout, "n": n, "objs": objs, "yhats": yhats, "yhat_dtype": "int" if yhat_int else "float", "ops": ops,
+            "scribble": r.random() < 0.3}
+
+
+def _container(vals, form, shape):
+    """the caller's container for y (and a function that re-reads its current content as a flat float array)"""
+    if form in ("float_array", "int_array"):
+        return np.array(vals, dtype=float if form == "float_array" else int).reshape(shape)
+    cast = float if form.endswith("float") else int
+    if len(shape) == 2:
+        rows = [[cast(v) for v in vals[i * shape[1]:(i + 1) * shape[1]]] for i in range(shape[0])]
+        return tuple(tuple(x) for x in rows) if form.startswith("tuple") else rows
+    seq = [cast(v) for v in vals]
+    return tuple(seq) if form.startswith("tuple") else seq
+
+
+def _flat(c):
+    return np.asarray(c, dtype=float).ravel()
+
+
+def _spread_arg(sp, shape, N):
+    """(constructor argument, per-observation float values); (None, None) for the default spread"""
+    k = sp["kind"]
+    if k == "default":
+        return None, None
+    v = sp["value"]
+    if k == "pyfloat": return float(v), np.full(N, float(v))
+    if k == "pyint": return int(v), np.full(N, float(v))
+    if k == "npfloat64": return np.float64(v), np.full(N, float(v))
+    if k == "npint64": return np.int64(v), np.full(N, float(v))
+    if k == "npfloat32": return np.float32(v), np.full(N, float(v))
+    if k == "zerod": return np.array(float(v)), np.full(N, float(v))
+    if k == "list": return [float(x) for x in v], np.array(v, float)
+    if k == "int_array": return np.array(v, dtype=int).reshape(shape), np.array(v, float)
+    if k == "column": return np.array(v, float).reshape(-1, 1), np.array(v, float)
+    return np.array(v, float).reshape(shape), np.array(v, float)
+
+
+def _weight_arg(wt, shape):
+    v, form = wt["value"], wt["form"]
+    if form == "array": return np.array(v, float).reshape(shape)
+    if form == "column": return np.array(v, float).reshape(-1, 1)
+    if form == "int_array": return np.array(v, dtype=int).reshape(shape)
+    if form == "bool_array": return np.array(v, dtype=bool).reshape(shape)
+    rows = [float(x) for x in v]
+    if len(shape) == 2:
+        rows = [rows[i * shape[1]:(i + 1) * shape[1]] for i in range(shape[0])]
+        return tuple(tuple(x) for x in rows) if form == "tuple" else rows
+    return tuple(rows) if form == "tuple" else rows
+
+
+def _same(a, b):
+    try:
+        if isinstance(a, np.ndarray) or isinstance(b, np.ndarray):
+            a_, b_ = np.asarray(a), np.asarray(b)
+            return a_.shape == b_.shape and a_.dtype == b_.dtype and bool(np.array_equal(a_, b_, equal_nan=(a_.dtype.kind == "f")))
+        return type(a) is type(b) and a == b
+    except Exception:
+        return False
+
+
+class _Oracle:
+    """closed-form reference values for one class (scipy.stats for the loss, 50-digit mpmath derivatives), memoised per observation"""
+
+    def __init__(self, cls):
+        self.cls, self.memo = cls, {}
+
+    def deriv(self, y, s, m, order):
+        key = (y, s, m, order)
+        if key not in self.memo:
+            self.memo[key] = float(mpmath.diff(_ref_nll(self.cls, y, s), mpmath.mpf(m), order))
+        return self.memo[key]
+
+    def expect(self, meth, aw, yv, mv, sv, wv):
+        cls = self.cls
+        w_eff = wv if aw else np.ones(len(yv))
+        if meth == "loss":
+            if cls == "Square":
+                return float(np.sum(((yv - mv) * w_eff) ** 2))
+            if cls == "Normal":
+                import scipy.stats as st
+                return float(np.sum(-st.norm.logpdf((yv - mv) * w_eff, loc=0.0, scale=sv)))
+            return float(np.sum(_scipy_nll(cls, yv, mv, sv)))
+        ss = [None] * len(yv) if sv is None else [float(x) for x in sv]
+        if meth == "diff_loss":
+            return np.array([self.deriv(float(yv[i]), ss[i], float(mv[i]), 1) for i in range(len(yv))]) * w_eff
+        if np.all(w_eff == 1.0) or cls in ("Square", "Normal", "Poisson"):
+            return np.array([self.deriv(float(yv[i]), ss[i], float(mv[i]), 2) for i in range(len(yv))])
+        return None         # Gamma / NegBinom curvature with non-unit weights: not part of the property
+
+
+def _run_session(case):
+    from pygom.loss import loss_type
+    mpmath.mp.dps = 50
+    cls, layout, n = case["cls"], case["layout"], case["n"]
+    matrix = layout == "matrix"
+    N = 2 * n if matrix else n
+    yshape = (n, 2) if matrix else (n,)
+    hshape = {"vector": (n,), "column": (n, 1), "row": (1, n), "matrix": (n, 2)}[layout]
+    out_shape = (n, 2) if matrix else (n,)
+    hdtype = int if case.get("yhat_dtype") == "int" else float
+    tags = ["session", "class:" + cls, "layout:" + layout, "n=%d" % n, "objects=%d" % len(case["objs"]), "yhat-dtype:" + case.get("yhat_dtype", "float")]
+    mism, viol, seen = [], [], set()
+    detail = json.dumps(case)
+
+    def violation(sig, what):
+        if sig not in seen:
+            seen.add(sig)
+            viol.append({"what": what, "signature": sig, "detail": detail})
+
+    ctor = getattr(loss_type, cls)
+    oracle = _Oracle(cls)
+    # ------------------------------------------------------------------ the caller's containers and the objects
+    live = []
+    exotic = hdtype is int
+    for k, o in enumerate(case["objs"]):
+        tags.append("y:" + o["y_form"])
+        ycont = _container(o["y"], o["y_form"], yshape)
+        kw, sv = {}, None
+        if cls in SPREAD:
+            sp = o["spread"]
+            tags.append("spread:" + sp["kind"])
+            arg, sv = _spread_arg(sp, yshape, N)
+            if sp["kind"] == "default":
+                sv = np.full(N, {"Normal": 1.0, "Gamma": 2.0, "NegBinom": 1.0}[cls])
+            else:
+                kw[SPREAD[cls]] = arg
+            if sp["kind"] in SPREAD_EXOTIC or (sp["kind"] in ("array", "int_array", "column") and not isinstance(ycont, np.ndarray)):
+                exotic = True      # scalar types other than int / float, and array spreads next to a list y, are refused by the unchanged tree
+        wv = np.ones(N)
+        if o["weights"]:
+            tags.append("weights:" + o["weights"]["form"])
+            kw["weights"] = _weight_arg(o["weights"], yshape)
+            wv = np.array(o["weights"]["value"], float)
+        else:
+            tags.append("weights:none")
+        keep = {"y": copy.deepcopy(ycont), "kw": copy.deepcopy(kw)}
+        try:
+            obj = ctor(ycont, **kw)
+        except Exception as exc:
+            if exotic:
+                return {"nontrivial": False, "mismatches": mism, "violations": viol, "tags": tags + ["form-rejected:constructor:" + type(exc).__name__]}
+            violation("%s.__init__:session:raises:%s" % (cls, type(exc).__name__), "%s constructor raised %s on valid input: %s" % (cls, type(exc).__name__, str(exc)[:200]))
+            return {"nontrivial": False, "mismatches": mism, "violations": viol, "tags": tags + ["ctor_raises"]}
+        live.append({"obj": obj, "ycont": ycont, "kw": kw, "keep": keep, "yv": np.array(o["y"], float), "sv": sv, "wv": wv, "gen": 0})
+    if exotic:
+        tags.append("form:exotic")
+
+    # persistent memory the "solver" writes its predictions into
+    buf = np.empty(hshape, dtype=hdtype)
+    width = 4 if matrix else 3
+    sol = np.full((width, n) if layout == "row" else (n, width), 7, dtype=hdtype)
+    sol_expected = sol.copy()
+
+    def the_view():
+        if layout == "vector": return sol[:, 1]
+        if layout == "column": return sol[:, 1:2]
+        if layout == "row": return sol[1:2, :]
+        return sol[:, 1:3]
+
+    fresh_kept, kept, first_seen = [], [], {}
+    scribble, scribbled = bool(case.get("scribble")), []
+    if scribble:
+        tags.append("caller-overwrites-results")
+    buffer_content, reused_changed, all_returned = {"buffer": None, "view": None}, False, True
+    for idx, op in enumerate(case["ops"]):
+        L = live[op["obj"]]
+        if op.get("op") == "deepcopy":
+            how = op.get("how", "deepcopy")
+            tags.append("op:" + how)
+            try:
+                L["obj"] = copy.deepcopy(L["obj"]) if how == "deepcopy" else pickle.loads(pickle.dumps(L["obj"]))
+            except Exception as exc:
+                violation("%s:session:%s-raises" % (cls, how), "%s of a %s object raised %r" % (how, cls, exc))
+            continue
+        if op.get("op") == "rebuild":
+            tags.append("op:rebuild-on-refilled-y")
+            newy = [float(v) for v in op["y"]]
+            if isinstance(L["ycont"], np.ndarray):
+                L["ycont"][...] = np.array(newy).reshape(yshape)         # the caller refills its data array in place ...
+            else:
+                L["ycont"] = _container(newy, case["objs"][op["obj"]]["y_form"], yshape)
+            L["keep"]["y"] = copy.deepcopy(L["ycont"])
+            L["yv"] = np.array(newy, float)
+            L["gen"] += 1
+            if any(not _same(val, L["keep"]["kw"][name]) for name, val in L["kw"].items()):
+                tags.append("rebuild-skipped:inputs-modified-earlier")      # the spread / weight containers are no longer what the caller made: not valid input any more
+                all_returned = False
+                break
+            try:
+                L["obj"] = ctor(L["ycont"], **L["kw"])                     # ... and builds a new kernel object on it
+            except Exception as exc:
+                all_returned = False
+                if not exotic:
+                    violation("%s.__init__:session:raises:%s" % (cls, type(exc).__name__), "%s constructor raised %s on valid input (object rebuilt on the refilled y array): %s" % (cls, type(exc).__name__, str(exc)[:200]))
+                break
+            continue
+        meth, aw, via = op["meth"], bool(op["aw"]), op["via"]
+        vals = np.array(case["yhats"][op["yhat"]], float)
+        shaped = vals.reshape(hshape).astype(hdtype)
+        if via == "fresh":
+            arg = shaped.copy()
+            fresh_kept.append((arg, arg.copy()))
+        elif via == "buffer":
+            if buffer_content["buffer"] is not None and buffer_content["buffer"] != op["yhat"]:
+                reused_changed = True
+            if buffer_content["buffer"] != op["yhat"]:
+                buf[...] = shaped          # refilled in place only when the solver has moved on; otherwise the caller passes it again as it is
+            buffer_content["buffer"] = op["yhat"]
+            arg = buf
+        else:
+            if buffer_content["view"] is not None and buffer_content["view"] != op["yhat"]:
+                reused_changed = True
+            if buffer_content["view"] != op["yhat"]:
+                v = the_view(); v[...] = shaped
+                sol_expected[...] = sol
+            buffer_content["view"] = op["yhat"]
+            arg = the_view()                                               # a NEW view object over the same memory, as sol[:, i] is
+        label = "%s.%s(%s, apply_weighting=%s) [operation %d, prediction set %d via %s]" % (cls, meth, layout, aw, idx, op["yhat"], via)
+        try:
+            with np.errstate(all="ignore"):
+                res = getattr(L["obj"], meth)(arg, apply_weighting=aw)
+        except Exception as exc:
+            all_returned = False
+            if exotic:
+                tags.append("form-rejected:%s:%s" % (meth, type(exc).__name__))
+            else:
+                violation("%s.%s:session:raises" % (cls, meth), "%s raised %s: %s" % (label, type(exc).__name__, str(exc)[:200]))
+            continue
+        if isinstance(res, np.ndarray):
+            # a result that shares memory with the object's attributes or with the caller's containers is a hazard, not a wrong value: TAG
+            try:
+                if any(isinstance(v, np.ndarray) and np.shares_memory(res, v) for v in vars(L["obj"]).values()):
+                    tags.append("result-shares-memory:object-state:%s" % meth)
+                if np.shares_memory(res, arg) or any(isinstance(v, np.ndarray) and np.shares_memory(res, v) for v in [L["ycont"]] + list(L["kw"].values())):
+                    tags.append("result-shares-memory:caller-array:%s" % meth)
+            except Exception:
+                pass
+        if scribble and isinstance(res, np.ndarray) and res.flags.writeable:
+            scribbled.append((res, copy.deepcopy(res)))       # judged below on the copy; the caller then overwrites ITS result array
+        else:
+            kept.append((idx, label, res, copy.deepcopy(res)))
+        # ---- shape
+        want_shape = () if meth == "loss" else out_shape
+        if np.shape(res) != want_shape:
+            all_returned = False
+            violation("%s.%s:session:shape" % (cls, meth), "%s returned shape %s (expected %s)" % (label, np.shape(res), want_shape))
+            continue
+        # ---- value: the closed form at what the array held when the call was made
+        exp = oracle.expect(meth, aw, L["yv"], vals, L["sv"], L["wv"])
+        if exp is not None:
+            got = np.asarray(res, float).ravel() if meth != "loss" else float(res)
+            if not _close(got, exp, rel=1e-7 if meth == "diff2Loss" else REL):
+                # classification only (never used to accept anything): would a new object given fresh arrays be right?
+                hist = False
+                try:
+                    with np.errstate(all="ignore"):
+                        again = getattr(ctor(copy.deepcopy(L["keep"]["y"]), **copy.deepcopy(L["keep"]["kw"])), meth)(shaped.copy(), apply_weighting=aw)
+                    again = np.asarray(again, float).ravel() if meth != "loss" else float(again)
+                    hist = _close(again, exp, rel=1e-7 if meth == "diff2Loss" else REL)
+                except Exception:
+                    pass
+                if hist:
+                    violation("%s.%s:session:history-dependent" % (cls, meth),
+                              "%s = %s but the reference gives %s; a new %s object given a fresh copy of the same prediction returns the reference value: "
+                              "the value depends on earlier calls / on the identity of the array" % (label, np.asarray(got).tolist(), np.asarray(exp).tolist(), cls))
+                else:
+                    violation("%s.%s:session:value" % (cls, meth), "%s = %s but the reference gives %s" % (label, np.asarray(got).tolist(), np.asarray(exp).tolist()))
+        # ---- the same evaluation through the same memory must reproduce the earlier result bit for bit
+        if via != "fresh":
+            key = (op["obj"], L["gen"], meth, aw, op["yhat"], via)
+            if key in first_seen:
+                if not _same(np.asarray(first_seen[key][1]), np.asarray(res)):
+                    violation("%s.%s:session:not-reproduced" % (cls, meth), "%s = %s but the identical evaluation at operation %d gave %s"
+                              % (label, np.asarray(res).tolist(), first_seen[key][0], np.asarray(first_seen[key][1]).tolist()))
+            else:
+                first_seen[key] = (idx, copy.deepcopy(res))
+        # ---- the prediction array is the caller's.  A write into it is a side effect (TAG); its consequences are judged by the values
+        #      of the later calls that receive the same, not refilled, array
+        if via == "fresh":
+            ok = _same(fresh_kept[-1][0], fresh_kept[-1][1])
+        elif via == "buffer":
+            ok = _same(buf, shaped)
+        else:
+            ok = _same(sol, sol_expected)
+        if not ok:
+            tags.append("input-modified:prediction:%s" % meth)
+            if via == "view":
+                sol_expected[...] = sol
+        if scribbled and scribbled[-1][0] is res:
+            res[...] = -12345.0         # a returned array is the caller's: what the caller does to it must not reach the object (checked by the later values)
+    # ------------------------------------------------------------------ afterwards
+    for idx, label, res, snap in kept:
+        if not _same(np.asarray(res), np.asarray(snap)):
+            m_ = label.split("(")[0]
+            violation("%s:session:kept-result-changed" % m_, "the result of %s was %s when returned and is %s after later calls (returned array aliases internal state)"
+                      % (label, np.asarray(snap).tolist(), np.asarray(res).tolist()))
+    for k, L in enumerate(live):
+        if not _same(L["ycont"], L["keep"]["y"]):
+            tags.append("input-modified:y")
+        for name, val in L["kw"].items():
+            if not _same(val, L["keep"]["kw"][name]):
+                tags.append("input-modified:%s" % ("weights" if name == "weights" else "spread"))
+    return {"nontrivial": bool(all_returned and reused_changed and not exotic), "mismatches": mism, "violations": viol, "tags": sorted(set(tags)),
+            "sample": {"kind": "session", "cls": cls, "layout": layout, "ops": len(case["ops"]), "objects": len(live)}}
